@@ -12,6 +12,56 @@ from .report import Ctx, finish, VERIF
 from .src import AnalysisError
 
 
+MAX_ALTS = 16
+
+
+def run_with_scenarios(mod, ctx):
+    """Generic run, then one re-run of the whole rule per alternative scenario recorded by the default chooser
+    (see qstatic/scenario.py).  On a tree without default-decided conditions this is exactly one run."""
+    from . import scenario
+    from .alg import set_zero_atoms
+    S = scenario.SCEN
+    S.reset()
+    set_zero_atoms(())
+    mod.run(ctx)
+    alts = list(S.alts)
+    ctx.notes["default_decided_conditions"] = S.decisions
+    ctx.notes["alternative_scenarios"] = [_alt_label(a) for a in alts[:MAX_ALTS]]
+    skipped = []
+    for alt in alts[:MAX_ALTS]:
+        S.mode = "alt"
+        S.force_sites = frozenset([alt[1]]) if alt[0] == "force" else frozenset()
+        set_zero_atoms(alt[1] if alt[0] == "zero" else ())
+        sub = Ctx(ctx.prop, ctx.tier, ctx.root, ctx.seed, ctx.jobs)
+        sub._program = ctx._program
+        sub.scenario = _alt_label(alt)
+        try:
+            mod.run(sub)
+        except AnalysisError as e:
+            skipped.append(f"{sub.scenario}: {e}")      # the alternative is outside the analysable subset: not decided
+            continue
+        finally:
+            S.force_sites = frozenset()
+            set_zero_atoms(())
+        ctx.obligations.extend(sub.obligations)
+        for f in sub.findings:
+            if f.key() not in {g.key() for g in ctx.findings}:
+                ctx.findings.append(f)
+        for k, v in sub.instances.items():
+            ctx.instances[k] = ctx.instances.get(k, 0) + v
+        ctx.analysed.update(sub.analysed)
+    S.mode = "generic"
+    if skipped:
+        ctx.notes["alternative_scenarios_not_analysable"] = skipped[:10]
+
+
+def _alt_label(alt):
+    if alt[0] == "force":
+        rel, line, col = alt[1]
+        return f"force {rel}:{line}:{col}"
+    return "zero " + ",".join(sorted(repr(a) for a in alt[1]))[:120]
+
+
 def main(argv=None):
     ap = argparse.ArgumentParser()
     ap.add_argument("prop")
@@ -33,7 +83,7 @@ def main(argv=None):
                 print(f"ANALYSIS-ERROR property={prop}: no rule module")
                 return 2
             raise
-        mod.run(ctx)
+        run_with_scenarios(mod, ctx)
         write = not a.no_evidence
         if a.replay:
             want = json.load(open(a.replay))
